@@ -344,6 +344,45 @@ def rule_v3(chk, v, roles):
         ok_all = ok_all and good
 
 
+def presence_edges(db, b, what):
+    """edges of body b on which a credential is known to be presented, whatever the form of the test:
+      ("qs", lit)          query parameter `lit` exists: true edge of `qs.has(lit)` or of `opt.is_some_and(|qs| qs.has(lit))`
+      ("auth-header",)     an Authorization header exists: Some edge of `hs.get_unique(AUTHORIZATION)` / true edge of `.is_some()` on it
+      ("parse-ok", name)   `<name>::parse(..)` succeeded: Ok / Some(after .ok()) edge"""
+    edges = set()
+    for bi, t in b.calls():
+        d = callee_def(t)
+        sh = short(d)
+        if what[0] == "qs":
+            if d.endswith("OrderedQs::has") and paths.str_args(b, t) == [what[1]]:
+                edges |= flow.outcomes_of_call(b, bi).get("true")
+            elif sh in ("is_some_and", "is_ok_and") and d.startswith(("core::option::Option", "core::result::Result")):
+                for a in t["args"][1:]:
+                    for l, _ in (flow.resolve_chain(b, a) or []):
+                        for df in b.defs().get(l, []):
+                            if df["kind"] == "assign" and df["rv"]["k"] == "agg" and df["rv"].get("agg") == "closure":
+                                cb = db.body(df["rv"].get("def", ""))
+                                if cb is not None and any(callee_def(t2).endswith("OrderedQs::has") and paths.str_args(x, t2) == [what[1]]
+                                                          for x in db.nested(cb) for _, t2 in x.calls()):
+                                    edges |= flow.outcomes_of_call(b, bi).get("true")
+        elif what[0] == "auth-header":
+            if sh == "get_unique":
+                c = [flow.const_of(b, a) for a in t["args"]]
+                if any(x is not None and ((x.get("c") == "item" and x["def"].endswith("::AUTHORIZATION")) or (x.get("c") == "str" and x["v"].lower() == "authorization"))
+                       for x in c):
+                    o = flow.outcomes_of_call(b, bi)
+                    edges |= o.get("Some")
+                    for b2, t2 in b.calls():
+                        if callee_def(t2) == "core::option::Option::<T>::is_some" and flow.op_place(t2["args"][0]) is not None and \
+                                flow.op_place(t2["args"][0])["l"] in o.carriers:
+                            edges |= flow.outcomes_of_call(b, b2).get("true")
+        elif what[0] == "parse-ok":
+            if sh == "parse" and ("::" + what[1] + "::") in d or d.endswith("::" + what[1] + "::parse"):
+                o = flow.outcomes_of_call(b, bi)
+                edges |= o.get("Ok") | o.get("Some")
+    return edges
+
+
 def rule_v3_check(chk, db):
     """SignatureContext::check: a presented signature yields a verdict - Some(Err) never becomes Ok(None)"""
     cands = [b for b in db.grep("v2_check", "v4_check") if b.crate == "s3s" and
@@ -367,8 +406,8 @@ def rule_v3_check(chk, db):
         fw = first_writes_from(b, some, rw)
         bad = []
         for w in fw:
-            if w["kind"] == "residual":
-                continue
+            if w["kind"] in ("residual", "Err"):
+                continue        # the verdict's error is propagated (`?`, or `Err(err) => Err(err)`); any Err is a refusal, not a dropped verdict
             if w["kind"] == "Ok" and not flow.is_none_literal(b, w["rv"]["ops"][0]):
                 sl = flow.backward(b, w["rv"]["ops"][0])
                 if any(c_bi == bi for c_bi, _, _ in sl.calls):
